@@ -9,3 +9,7 @@ Open Scope string_scope. Open Scope list_scope.
 
 Lemma tie_unknown_text : unknown_text = src_unknown_text.
 Proof. reflexivity. Qed.
+
+(* Algorithm.get_ssh_version as it reads now (T1c translation): the product / version / client-only reading of one "available since" token *)
+Lemma tie_ssh_version : forall v, ssh_version v = src_get_ssh_version v.
+Proof. reflexivity. Qed.
